@@ -747,6 +747,16 @@ func runC11(c *ctx) {
 		res2 := safely(evalLimit, func() (interface{}, error) { return e.Eval(nil) })
 		if res2.outcome != exp {
 			c.disagree(Disagreement{Kind: "json-denotation-after-caller-wrote-into-result", Prog: text, Go: trunc(res2.outcome, 300), Model: trunc(exp, 300)})
+			return
+		}
+		// "on any input": inputs of every JSON kind, in particular the empty ones
+		for _, in := range []interface{}{[]interface{}{}, []interface{}{[]interface{}{}}, map[string]interface{}{}, "s", 0.0, false, []interface{}{1.0, 2.0}, []interface{}{nil}} {
+			in := in
+			r3 := safely(evalLimit, func() (interface{}, error) { return e.Eval(in) })
+			if r3.outcome != exp {
+				c.disagree(Disagreement{Kind: "json-denotation-depends-on-input", Prog: text, Input: in, Go: trunc(r3.outcome, 300), Model: trunc(exp, 300)})
+				return
+			}
 		}
 	}
 	// exhaustive strings of units
